@@ -180,11 +180,11 @@ Definition tog (b : bool) (o : obj) : obj :=
 Lemma sub_flag_tog (fl : bool) f w : (if fl then negb (sub_flag false f w) else sub_flag false f w) = sub_flag fl f w.
 Proof. destruct fl, f, w; reflexivity. Qed.
 
-Lemma compl_create m : forall fl p, wf_mb m = true -> safe_mb fl m = true ->
+Lemma compl_create m : forall fl p, names_ok m = true -> safe_mb fl m = true ->
   compl_m true fl m (tog (fl && m_is_iface m) (create_m false m p)) = Ok true.
 Proof.
   induction m as [f sh i d | f w ms d IH] using member_ind2; intros fl p Hwf Hsafe.
-  - simpl in *. rewrite andb_false_r. simpl. rewrite shape_eqb_refl, Hwf. reflexivity.
+  - simpl in *. rewrite andb_false_r. simpl. rewrite shape_eqb_refl, Z.eqb_refl. reflexivity.
   - cbn [m_is_iface m_is_port negb]. rewrite andb_true_r.
     cbn [create_m]. set (attrs := map _ ms).
     assert (Ht : tog fl (OIf (sub_flag false f w) (false, ms) attrs) = OIf (sub_flag fl f w) (false, ms) attrs).
@@ -193,7 +193,7 @@ Proof.
     cbn [compl_m]. fold g. cbn [obj_sig].
     assert (Hs : (if g then sig_flip (false, ms) else (false, ms)) = (g, ms)) by (destruct g; reflexivity).
     rewrite Hs, sig_eqb_refl. cbn [negb fst].
-    cbn [wf_mb] in Hwf. apply andb_prop in Hwf. destruct Hwf as [Hnd Hwf].
+    cbn [names_ok] in Hwf. apply andb_prop in Hwf. destruct Hwf as [Hnd Hwf].
     cbn [safe_mb] in Hsafe. fold g in Hsafe.
     rewrite forallb_forall in Hwf, Hsafe. rewrite Forall_forall in IH. clear Hs. clearbody g.
     apply all_res_true. intros [n mm] Hin. cbn [fst snd].
@@ -223,7 +223,7 @@ Proof.
 Qed.
 
 Theorem create_compliant x p :
-  wf_sig x = true -> safe_sig x = true -> is_compliant x (create x p) = Ok true.
+  names_ok (top x) = true -> safe_sig x = true -> is_compliant x (create x p) = Ok true.
 Proof.
   intros Hw Hs. unfold is_compliant, create.
   exact (compl_create (top x) false p Hw Hs).
@@ -411,14 +411,14 @@ Proof.
 Qed.
 
 Definition uniform_wi (ms : list member) : Prop :=
-  forall m m', In m ms -> In m' ms -> width (m_shape m) = width (m_shape m') /\ m_init m = m_init m'.
+  forall m m', In m ms -> In m' ms -> width (m_shape m) = width (m_shape m') /\ m_cinit m = m_cinit m'.
 
 Lemma check_wi_none w0 i0 l :
-  check_wi w0 i0 l = None <-> forall t, In t l -> width (m_shape (snd t)) = w0 /\ m_init (snd t) = i0.
+  check_wi w0 i0 l = None <-> forall t, In t l -> width (m_shape (snd t)) = w0 /\ m_cinit (snd t) = i0.
 Proof.
   induction l as [|[h m] l IH]; simpl; [split; auto; intros _ ? []|].
   destruct (w0 =? width (m_shape m)) eqn:Ew; simpl.
-  - destruct (i0 =? m_init m) eqn:Ei; simpl.
+  - destruct (i0 =? m_cinit m) eqn:Ei; simpl.
     + rewrite IH. apply Z.eqb_eq in Ew, Ei. split; intros H t; [intros [<-|Ht]; simpl; auto|auto].
     + split; [discriminate|]. intros H. destruct (H (h, m) (or_introl eq_refl)) as [_ E]. simpl in E.
       apply Z.eqb_neq in Ei. congruence.
@@ -474,9 +474,9 @@ Section Row.
         * intros H; inversion H; subst. split; [|reflexivity].
           split; [right; constructor|]. split; [intros ? ? []|]. split; intros ? ? [].
         * intros [_ ->]. reflexivity.
-      + destruct (check_wi (width (m_shape m0)) (m_init m0) r) as [e|] eqn:Ec.
+      + destruct (check_wi (width (m_shape m0)) (m_cinit m0) r) as [e|] eqn:Ec.
         * split; [discriminate|]. intros [(_ & Hu & _) _]. exfalso.
-          assert (check_wi (width (m_shape m0)) (m_init m0) r = None); [|congruence].
+          assert (check_wi (width (m_shape m0)) (m_cinit m0) r = None); [|congruence].
           apply check_wi_none. intros x Hx.
           assert (In (snd x) ms) by (apply Hsub; right; exact Hx).
           assert (In m0 ms) by (apply (Hsub (h0, m0)); left; reflexivity).
@@ -484,7 +484,7 @@ Section Row.
         * rewrite check_wi_none in Ec.
           assert (Hu : uniform_wi ms).
           { intros m m' Hm Hm'.
-            assert (G : forall m, In m ms -> width (m_shape m) = width (m_shape m0) /\ m_init m = m_init m0).
+            assert (G : forall m, In m ms -> width (m_shape m) = width (m_shape m0) /\ m_cinit m = m_cinit m0).
             { intros m1 H1. destruct (Hall m1 H1) as (x & [<-|Hx] & <-); [simpl; auto|apply Ec; exact Hx]. }
             destruct (G m Hm), (G m' Hm'). split; congruence. }
           destruct outs as [|o [|o2 r2]] eqn:Eo.
@@ -1059,7 +1059,7 @@ Record connectable (objs : list obj) (sigs : list sigt) : Prop := {
   c_kind : forall h h' p m m', member_at sigs h p m -> member_at sigs h' p m' -> m_is_port m = m_is_port m';
   (* equal widths and initial values *)
   c_wi : forall h h' p m m', member_at sigs h p m -> member_at sigs h' p m' ->
-         width (m_shape m) = width (m_shape m') /\ m_init m = m_init m';
+         width (m_shape m) = width (m_shape m') /\ m_cinit m = m_cinit m';
   (* at most one output per port member *)
   c_one : forall h h' p m m', member_at sigs h p m -> member_at sigs h' p m' ->
           m_is_port m = true -> m_is_port m' = true -> is_in (m_flow m) = false -> is_in (m_flow m') = false -> h = h';
@@ -1320,7 +1320,7 @@ Record connectable_with (okp : hpath -> hpath -> Prop) (sigs : list sigt) : Prop
             map fst (sort (flat_members x)) = map fst (sort (flat_members x'));
   k_kind : forall h h' p m m', member_at sigs h p m -> member_at sigs h' p m' -> m_is_port m = m_is_port m';
   k_wi : forall h h' p m m', member_at sigs h p m -> member_at sigs h' p m' ->
-         width (m_shape m) = width (m_shape m') /\ m_init m = m_init m';
+         width (m_shape m) = width (m_shape m') /\ m_cinit m = m_cinit m';
   k_one : forall h h' p m m', member_at sigs h p m -> member_at sigs h' p m' ->
           m_is_port m = true -> m_is_port m' = true -> is_in (m_flow m) = false -> is_in (m_flow m') = false -> h = h';
   k_conn : forall h h' p m m', member_at sigs h p m -> member_at sigs h' p m' ->
@@ -1784,7 +1784,7 @@ Qed.
 (* ================================================================== the leaves of the specification are the port members x indices *)
 Definition entry_leaves (e : entry) : list sleaf :=
   match snd e with
-  | Port f sh i d => map (fun idx => SLeaf (PNs (fst e) ++ idx) f sh i) (idx_paths d)
+  | Port f sh i d => map (fun idx => SLeaf (PNs (fst e) ++ idx) f sh (norm sh i)) (idx_paths d)
   | Iface _ _ _ _ => []
   end.
 
@@ -1820,7 +1820,7 @@ Definition strip (l : leaf) : sleaf := SLeaf (l_path l) (l_flow l) (l_shape l) (
 
 Definition elem_leaves (k : nat) (m : member) (q : path) : list sleaf :=
   match m with
-  | Port f sh i _ => [SLeaf q (iter_flip k f) sh i]
+  | Port f sh i _ => [SLeaf q (iter_flip k f) sh (norm sh i)]
   | Iface f w ms _ => flat_map (fun nm => spec_leaves_m (k + b2n w + b2n (is_in f)) (snd nm) (q ++ [PN (fst nm)])) ms
   end.
 
@@ -1866,7 +1866,7 @@ Proof.
     intros i Hi. rewrite (HE i Hi). simpl. rewrite flat_map_map. reflexivity.
 Qed.
 
-Lemma flat_create m : forall k p q, wf_mb m = true -> safe_mb (Nat.odd k) m = true ->
+Lemma flat_create m : forall k p q, names_ok m = true -> safe_mb (Nat.odd k) m = true ->
   let r := flat_obj_m (Nat.odd k) m q (tog (Nat.odd k && m_is_iface m) (create_m false m p)) in
   is_ok r = true /\ map strip (unres r) = elem_leaves k m q.
 Proof.
@@ -1881,7 +1881,7 @@ Proof.
     assert (Hg : sub_flag fl f w = Nat.odd (k + b2n w + b2n (is_in f))) by (unfold fl; apply sub_flag_odd).
     set (k' := (k + b2n w + b2n (is_in f))%nat) in *. set (g := sub_flag fl f w) in *.
     cbn [flat_obj_m elem_leaves]. fold g. fold k'.
-    cbn [wf_mb] in Hwf. apply andb_prop in Hwf. destruct Hwf as [Hnd Hwf].
+    cbn [names_ok] in Hwf. apply andb_prop in Hwf. destruct Hwf as [Hnd Hwf].
     cbn [safe_mb] in Hsafe. fold g in Hsafe.
     rewrite forallb_forall in Hwf, Hsafe. rewrite Forall_forall in IH. clearbody g. subst g.
     set (E := fun nm : Z * member => match obj_get (OIf (Nat.odd k') (false, ms) attrs) (fst nm) with
@@ -1929,7 +1929,7 @@ Qed.
 (* Signature.flatten(obj) on an interface created from the signature yields exactly the specification leaves
    (paths with indices, effective directions, shapes, inits), in order *)
 Theorem flatten_created x p :
-  wf_sig x = true -> safe_sig x = true ->
+  names_ok (top x) = true -> safe_sig x = true ->
   exists ls, flat_obj x (create x p) = Ok ls /\ map strip ls = spec_leaves x.
 Proof.
   intros Hw Hs. unfold flat_obj, create.
@@ -1980,11 +1980,11 @@ Qed.
 
 Lemma check_wi_some w0 i0 l e : check_wi w0 i0 l = Some e ->
   (e = EWidth /\ exists t, In t l /\ width (m_shape (snd t)) <> w0) \/
-  (e = EInit /\ exists t, In t l /\ m_init (snd t) <> i0).
+  (e = EInit /\ exists t, In t l /\ m_cinit (snd t) <> i0).
 Proof.
   induction l as [|[h m] l IH]; simpl; [discriminate|].
   destruct (w0 =? width (m_shape m)) eqn:Ew; simpl.
-  - destruct (i0 =? m_init m) eqn:Ei; simpl.
+  - destruct (i0 =? m_cinit m) eqn:Ei; simpl.
     + intros H. destruct (IH H) as [[-> (t & Ht & Hw)]|[-> (t & Ht & Hw)]]; [left|right]; split; eauto.
     + intros H; inversion H; subst. right. split; [reflexivity|]. exists (h, m). split; [auto|]. simpl.
       apply Z.eqb_neq in Ei. congruence.
@@ -2005,7 +2005,7 @@ Inductive step_defect (objs : list obj) (p : list Z) (ms : list member) : cerr -
 | sd_width h h' m m' : nth_error ms h = Some m -> nth_error ms h' = Some m' -> m_is_port m = true -> m_is_port m' = true ->
     width (m_shape m) <> width (m_shape m') -> step_defect objs p ms EWidth
 | sd_init h h' m m' : nth_error ms h = Some m -> nth_error ms h' = Some m' -> m_is_port m = true -> m_is_port m' = true ->
-    m_init m <> m_init m' -> step_defect objs p ms EInit
+    m_cinit m <> m_cinit m' -> step_defect objs p ms EInit
 | sd_several h h' m m' : nth_error ms h = Some m -> nth_error ms h' = Some m' -> h <> h' ->
     is_out_port (h, m) = true -> is_out_port (h', m') = true -> step_defect objs p ms ESeveral
 | sd_dims h h' m m' : nth_error ms h = Some m -> nth_error ms h' = Some m' ->
@@ -2039,7 +2039,7 @@ Proof.
   - destruct (nonempty sigs); [discriminate|]. destruct st as [[cs ai] ao].
     destruct (ins ++ outs) as [|[h0 m0] r] eqn:El; [discriminate|].
     assert (H0 : nth_error ms h0 = Some m0 /\ m_is_port m0 = true) by (apply (Hio (h0, m0)); left; reflexivity).
-    destruct (check_wi (width (m_shape m0)) (m_init m0) r) as [e'|] eqn:Ec.
+    destruct (check_wi (width (m_shape m0)) (m_cinit m0) r) as [e'|] eqn:Ec.
     + intros H; inversion H; subst.
       destruct (check_wi_some _ _ _ _ Ec) as [[-> (x & Hx & Hw)]|[-> (x & Hx & Hw)]];
         destruct (Hio x (or_intror Hx)) as [Hx1 Hx2].
@@ -2072,7 +2072,7 @@ Inductive connect_defect (objs : list obj) (sigs : list sigt) : cerr -> Prop :=
 | cd_width h h' p m m' : member_at sigs h p m -> member_at sigs h' p m' -> m_is_port m = true -> m_is_port m' = true ->
     width (m_shape m) <> width (m_shape m') -> connect_defect objs sigs EWidth
 | cd_init h h' p m m' : member_at sigs h p m -> member_at sigs h' p m' -> m_is_port m = true -> m_is_port m' = true ->
-    m_init m <> m_init m' -> connect_defect objs sigs EInit
+    m_cinit m <> m_cinit m' -> connect_defect objs sigs EInit
 | cd_several h h' p m m' : member_at sigs h p m -> member_at sigs h' p m' -> h <> h' ->
     m_is_port m = true -> is_in (m_flow m) = false -> m_is_port m' = true -> is_in (m_flow m') = false ->
     connect_defect objs sigs ESeveral
